@@ -218,3 +218,27 @@ Theorem C10_unknown_token_sound : forall c toks ls st e st',
   exists tok, In tok toks /\ unknown_cause c tok e.
 Proof. exact parse_loop_unknown_sound. Qed.
 Print Assumptions C10_unknown_token_sound.
+
+(** ** the whole parse (all levels, [help] subcommand, env/defaults, validation): an UnknownArgument /
+    InvalidSubcommand rejection is the token-loop error of some level (an unmatched token of that
+    level's line) or the error of the [help] subcommand walk *)
+Theorem C10_unknown_rejection_sound : forall c0 argv e,
+  parse_top c0 argv = OErr e -> unknown_kind (e_kind e) ->
+  (exists c' toks' tok, In tok toks' /\ unknown_cause c' tok e) \/ (exists sc names, e = help_walk sc names).
+Proof. exact parse_top_unknown_sound. Qed.
+Print Assumptions C10_unknown_rejection_sound.
+
+Theorem C10_help_walk_sound : forall names sc,
+  let e := help_walk sc names in
+  e_kind e = EDisplayHelp \/
+  (e_kind e = EInvalidSubcommand /\ In (e_arg e) names /\
+   exists sc', find_subcommand sc' (e_arg e) = None \/
+               (exists s, find_subcommand sc' (e_arg e) = Some s /\ build_subcommand sc' (c_name s) = None)).
+Proof. exact help_walk_sound. Qed.
+Print Assumptions C10_help_walk_sound.
+
+Theorem C10_validate_kinds : forall c m k a,
+  validate c m = VErr k a ->
+  In k [EDisplayHelpOnMissing; EMissingSubcommand; EArgumentConflict; EMissingRequiredArgument].
+Proof. exact validate_kinds. Qed.
+Print Assumptions C10_validate_kinds.
